@@ -806,7 +806,7 @@ Proof.
   - split; [discriminate|]. split; [|cbn; lia].
     intros i Hi. cbn [length] in Hi.
     destruct i as [|[|[|i]]]; [cbn; lia|cbn; lia|cbn; lia|lia].
-  - intros (_ & H). cbn in H. discriminate H.
+  - exact I.
 Qed.
 
 Example c07_analysis :
